@@ -30,18 +30,20 @@ type c13Part struct {
 }
 
 type c13Completion struct {
-	Parts      []c13Part `json:"parts"`
-	Finish     string    `json:"finish"`
-	Prompt     int       `json:"prompt_tokens"`
-	Completion int       `json:"completion_tokens"`
-	Interleave bool      `json:"interleave"` // tool fragments of different calls interleaved (only no-crash/termination asserted)
-	Malformed  bool      `json:"malformed"`
+	Parts        []c13Part `json:"parts"`
+	Finish       string    `json:"finish"`
+	UsageChunk   bool      `json:"usage_chunk,omitempty"`    // usage arrives in a final chunk with no choices
+	TextWithTool bool      `json:"text_with_tool,omitempty"` // text and the opening of a tool call share a delta
+	Prompt       int       `json:"prompt_tokens"`
+	Completion   int       `json:"completion_tokens"`
+	Interleave   bool      `json:"interleave"` // tool fragments of different calls interleaved (only no-crash/termination asserted)
+	Malformed    bool      `json:"malformed"`
 }
 
 var c13Words = []string{"hello", " world", "", " ünïcödé ✓", " 日本語のテキスト", "\n\nnew para", " \"quoted\" \\ back", " emoji 🎉🚀", " data: not a field", "\t", " [DONE]", " </s>"}
 
 func c13Args(r R) string {
-	switch r.Pick(5) {
+	switch r.Pick(6) {
 	case 0:
 		return `{}`
 	case 1:
@@ -52,6 +54,9 @@ func c13Args(r R) string {
 		big := strings.Repeat("lorem ipsum ", 200+r.Pick(300))
 		b, _ := json.Marshal(map[string]any{"text": big, "k": 1.5})
 		return string(b)
+	case 4:
+		// integers beyond 2^53 and long decimals must come through digit for digit
+		return `{"id":9007199254740993,"amount":12345678901234567890,"ratio":0.1000000000000000055511151231257827}`
 	default:
 		return `{"path":"/tmp/x y","lines":[10,20],"u":"✓ 日本"}`
 	}
@@ -110,6 +115,8 @@ func c13Gen(r R) c13Completion {
 		// documented Anthropic counterpart, so only streamed == buffered is asserted for it
 		c.Finish = pickS(r, []string{"stop", "tool_calls", "length", "content_filter"})
 	}
+	c.UsageChunk = r.Chance(400)
+	c.TextWithTool = r.Chance(300)
 	c.Prompt, c.Completion = 1+r.Pick(5000), r.Pick(3000)
 	return c
 }
@@ -153,9 +160,19 @@ func c13SSE(r R, c c13Completion) string {
 		data map[string]any
 	}
 	var pendingInterleave [][]frag
-	for _, p := range c.Parts {
+	carry := ""
+	for pi, p := range c.Parts {
+		if carry != "" && p.Type == "text" {
+			emit(map[string]any{"content": carry}, nil, nil)
+			carry = ""
+		}
 		if p.Type == "text" {
-			for _, piece := range cutRunes(r, p.Text, pickS(r, []int{1, 3, 10, 1000})) {
+			pieces := cutRunes(r, p.Text, pickS(r, []int{1, 3, 10, 1000}))
+			if c.TextWithTool && !c.Interleave && pi+1 < len(c.Parts) && c.Parts[pi+1].Type == "tool" {
+				carry = pieces[len(pieces)-1]
+				pieces = pieces[:len(pieces)-1]
+			}
+			for _, piece := range pieces {
 				emit(map[string]any{"content": piece}, nil, nil)
 			}
 			continue
@@ -177,7 +194,13 @@ func c13SSE(r R, c c13Completion) string {
 			pendingInterleave = append(pendingInterleave, fr)
 			continue
 		}
-		for _, f := range fr {
+		for fi, f := range fr {
+			if fi == 0 && c.TextWithTool && carry != "" {
+				// the last piece of the preceding text and the opening of the tool call travel in one delta
+				emit(map[string]any{"content": carry, "tool_calls": []any{f.data}}, nil, nil)
+				carry = ""
+				continue
+			}
 			emit(map[string]any{"tool_calls": []any{f.data}}, nil, nil)
 		}
 	}
@@ -190,7 +213,14 @@ func c13SSE(r R, c c13Completion) string {
 			pendingInterleave = append(pendingInterleave[:k], pendingInterleave[k+1:]...)
 		}
 	}
-	emit(map[string]any{}, c.Finish, map[string]any{"prompt_tokens": c.Prompt, "completion_tokens": c.Completion, "total_tokens": c.Prompt + c.Completion})
+	usage := map[string]any{"prompt_tokens": c.Prompt, "completion_tokens": c.Completion, "total_tokens": c.Prompt + c.Completion}
+	if c.UsageChunk {
+		// stream_options.include_usage: the finish chunk carries no usage, a last chunk with no choices does
+		emit(map[string]any{}, c.Finish, nil)
+		sb.WriteString("data: " + q(map[string]any{"id": "chatcmpl-x", "object": "chat.completion.chunk", "created": 1, "model": "backend-model", "choices": []any{}, "usage": usage}) + "\n\n")
+	} else {
+		emit(map[string]any{}, c.Finish, usage)
+	}
 	sb.WriteString("data: [DONE]\n\n")
 	return sb.String()
 }
@@ -446,8 +476,7 @@ func c13ParseStream(body []byte) c13Parsed {
 			if s == "" {
 				s = "{}"
 			}
-			var v any
-			if err := json.Unmarshal([]byte(s), &v); err != nil {
+			if v, err := c13Decode(s); err != nil {
 				res.blocks[i].Input = "UNPARSEABLE:" + s
 			} else {
 				res.blocks[i].Input = v
@@ -458,6 +487,17 @@ func c13ParseStream(body []byte) c13Parsed {
 		res.err = "stream ended in state " + state
 	}
 	return res
+}
+
+// c13Decode parses JSON keeping numbers as written (json.Number): 9007199254740993 is not 9007199254740992.
+func c13Decode(s string) (any, error) {
+	d := json.NewDecoder(strings.NewReader(s))
+	d.UseNumber()
+	var v any
+	if err := d.Decode(&v); err != nil {
+		return nil, err
+	}
+	return v, nil
 }
 
 func c13Expected(c c13Completion) []c13Block {
@@ -471,8 +511,7 @@ func c13Expected(c c13Completion) []c13Block {
 			}
 			continue
 		}
-		var v any
-		_ = json.Unmarshal([]byte(p.Args), &v)
+		v, _ := c13Decode(p.Args)
 		out = append(out, c13Block{Type: "tool_use", ID: p.ID, Name: p.Name, Input: v})
 	}
 	return out
@@ -560,11 +599,11 @@ func (propC13) Check(r *Run) []Violation {
 	if cb != nil && cb.Status == 200 {
 		var br struct {
 			Content []struct {
-				Type  string `json:"type"`
-				Text  string `json:"text"`
-				ID    string `json:"id"`
-				Name  string `json:"name"`
-				Input any    `json:"input"`
+				Type  string          `json:"type"`
+				Text  string          `json:"text"`
+				ID    string          `json:"id"`
+				Name  string          `json:"name"`
+				Input json.RawMessage `json:"input"`
 			} `json:"content"`
 			StopReason string `json:"stop_reason"`
 			Usage      struct {
@@ -580,9 +619,24 @@ func (propC13) Check(r *Run) []Violation {
 		for _, c := range br.Content {
 			x := c13Block{Type: c.Type, Text: c.Text, ID: c.ID, Name: c.Name}
 			if c.Type == "tool_use" {
-				x.Input = c.Input
+				x.Input, _ = c13Decode(string(c.Input))
 			}
 			bb = append(bb, x)
+		}
+		// well-formed blocks: a text block carries its text (possibly empty), a tool_use block its input object
+		var rawMsg struct {
+			Content []map[string]json.RawMessage `json:"content"`
+		}
+		_ = json.Unmarshal(cb.Body, &rawMsg)
+		for i, blk := range rawMsg.Content {
+			var typ string
+			_ = json.Unmarshal(blk["type"], &typ)
+			if _, ok := blk["text"]; typ == "text" && !ok {
+				add("C13/buffered-block-malformed", "content block %d is {\"type\":\"text\"} without a text field: %.300q", i, cb.Body)
+			}
+			if _, ok := blk["input"]; typ == "tool_use" && !ok {
+				add("C13/buffered-block-malformed", "tool_use block %d has no input object: %.300q", i, cb.Body)
+			}
 		}
 		representable := true
 		seenTool := false
